@@ -681,6 +681,12 @@ func genCase(r *rand.Rand) *Case {
 	if r.Intn(20) == 0 {
 		add(genPat(r, "top", "", xml.Name{Space: otherNS}))
 	}
+	// the zero name as a top-level pattern (the idiom for handlers that only
+	// contribute features and are never meant to be called): it names the
+	// element without namespace and local name, i.e. nothing that can arrive
+	if r.Intn(6) == 0 {
+		add(genPat(r, "top", "", xml.Name{}))
+	}
 	// forwarding: a handler that re-dispatches an embedded stanza through the
 	// same multiplexer (the way forwarded / carbon-copied stanzas are handled)
 	var fwdFocus []kt
